@@ -11,3 +11,5 @@ def run(chk):
     CC.operation_methods(chk, "C08", want=("C08",))
     X.item_in_child_context(chk, "C08")
     X.handlers_dispatch(chk, "C08")
+    from . import misc_contracts
+    misc_contracts.context_construction(chk, "C08")
